@@ -476,6 +476,58 @@ func (w *worker) readonly(entries []*catalog.Entry) {
 	}
 }
 
+// decorations are extra query parameters that select other operations elsewhere in the API. Added to a mutating
+// request they must not open a way around the read-only refusal: whatever the gateway makes of the request, the
+// store stays as it is.
+var decorations = []string{"select=", "select=&select-type=2", "list-type=2", "versions=", "x-id=GetObject", "location=", "attributes="}
+
+// decorated sends every live mutating S3 request once more per decoration and judges the store only.
+func (w *worker) decorated(entries []*catalog.Entry) {
+	for _, e := range entries {
+		if e.Kind != catalog.W || e.Level == catalog.LvlAdmin || !w.live[e.Name] {
+			continue
+		}
+		for _, deco := range decorations {
+			id := w.lane + "/" + e.Name + "/+" + deco
+			if !w.c.Want(id) {
+				continue
+			}
+			rq := e.Request(w.args(e), catalog.BodyValid).Req()
+			rq.Watchdog = 60 * time.Second
+			if strings.Contains("&"+rq.Query+"&", "&"+strings.SplitN(deco, "=", 2)[0]+"=") {
+				continue // the request already carries that parameter
+			}
+			if rq.Query == "" {
+				rq.Query = deco
+			} else {
+				rq.Query += "&" + deco
+			}
+			b := w.cl.Build(rq)
+			resp := w.cl.Send(b, rq)
+			w.c.Add("readonly_decorated_requests", 1)
+			if resp.Err != nil {
+				if !w.gatewayGone(id, resp) {
+					return
+				}
+				continue
+			}
+			w.c.Eval(1)
+			d := w.diff(false)
+			if len(d) > 0 {
+				m := describe(b, resp)
+				m["endpoint"], m["caller"], m["config"], m["extra_query"], m["tree_diff"] = e.Name, w.caller, w.cfg.name, deco, short(d)
+				w.c.Violation(e.Name+":"+w.caller+":tree-changed:with-extra-query-"+strings.SplitN(deco, "=", 2)[0], id, m)
+				if err := w.restore(); err != nil {
+					w.c.Inconclusive("store restore failed: " + err.Error())
+					return
+				}
+				continue
+			}
+			w.c.Distinct(w.cfg.name + "|" + e.Name + "|" + w.caller + "|+" + strings.SplitN(deco, "=", 2)[0])
+		}
+	}
+}
+
 func clip(s string) string {
 	if len(s) > 1200 {
 		return s[:1200] + "..."
@@ -519,6 +571,7 @@ func (w *worker) runAll() {
 		w.c.Observe("starting the read-only gateway changed the store: " + d[0])
 	}
 	w.readonly(entries)
+	w.decorated(entries)
 	if _, cr := w.env.Dead(); cr != nil {
 		w.c.Observe("read-only gateway died: " + cr.Message + " @ " + cr.TopFrame)
 		w.c.Inconclusive("gateway died")
